@@ -243,6 +243,25 @@ ADDENDA13 = {
 for _p, _t in ADDENDA13.items():
     CHECKS[_p]["text"] = CHECKS[_p]["text"] + " " + _t
 
+ADDENDA14 = {
+ "C01": "Compose at the level of members and variants (MC_Members, MC_Variants): a member's key does not depend on its siblings; identifiers with non-ASCII letters.",
+ "C02": "MC_Variants: a variant's wire string does not depend on its sibling variants; identifiers that begin with a non-ASCII capital.",
+ "C03": "Dimension Lookalikes (skip_serializing / skip_deserializing / skip_serializing_if are not skip markers); places bad_vfield_item / bad_payload_item / bad_alias_item.",
+ "C04": "MC_Members / MC_Variants (optional markers); leaf Sas; a single Option is not printed like a double one (TypeScript).",
+ "C05": "MC_Members / MC_Variants (types); swiftGenericConstraints on a later parameter (DeclOk).",
+ "C09": "Kind jvm_inline; an identifier that begins with the configured prefix.",
+ "C10": "Doc kind block (one doc attribute over several lines).",
+ "C11": "Programs next to generic items whose parameter is named like a referenced item.",
+ "C12": "A member with a type override for one language only; rejected programs are reported instead of skipped.",
+ "C13": "An untagged enum whose data variants are dropped by the rule (it is a unit enum then).",
+ "C14": "The only reference carries a type override for one language.",
+ "C16": "The backends leg also under Go uppercase_acronyms.",
+ "C17": "v8 under a multi-entry mapping configuration; Kotlin folder mode in the quick tier.",
+ "C20": "A mapping keyed by a container instance (HashMap<String,String>).",
+}
+for _p, _t in ADDENDA14.items():
+    CHECKS[_p]["text"] = CHECKS[_p]["text"] + " " + _t
+
 NOT_YET = "not built yet in this round (planned: see DESIGN.md section 6); no check is registered, nothing is claimed"
 
 def main():
